@@ -15,14 +15,17 @@
      hdr   the 20-byte IPv4 header EncodeIP4 + SetPayload/AppendPayload must produce (checksum field zero)
            for ttl x protocol x payload length x address pair classes
      echo4 the ICMPv4 echo message of Session.ICMP4SendEchoRequest (checksum field zero)
-     echo6 IPv6 pseudo-header ++ ICMPv6 echo message of Session.ICMP6SendEchoRequest (checksum field zero) *)
+     echo6 IPv6 pseudo-header ++ ICMPv6 echo message of Session.ICMP6SendEchoRequest (checksum field zero)
+     pair6 the same message as echo6, to be sent directly after one other transmission (`pre`): Stored is a function of
+           the bytes alone, so the expected bytes do not depend on what the session sent before (the transmit buffers
+           are pooled; the echo message is the only ICMPv6 message of odd length) *)
 EXTENDS Cksum, TLC, Json
 
 CONSTANTS RawMax,      \* 0..2
           RawStride,   \* length-2 strings <<x, y>> are emitted when (x*256+y) % RawStride = 0 or x,y are boundary bytes
           PatLens,     \* set of lengths for the pattern family
           AllPosUpTo,  \* lengths <= AllPosUpTo perturb every word position, longer ones the first / last four
-          Families     \* subset of {"raw", "pat", "hdr", "echo4", "echo6"}
+          Families     \* subset of {"raw", "pat", "hdr", "echo4", "echo6", "pair6"}
 
 VARIABLE d
 
@@ -74,7 +77,14 @@ Echo4Set == {[k |-> "echo4", n |-> id, car |-> sq, pos |-> 0, val |-> 0] : id \i
 Echo6Set == {[k |-> "echo6", n |-> id, car |-> sq, pos |-> 0, val |-> ap[1] * 16 + ap[2]] :
                id \in IdSeq, sq \in {1, 256, 65535}, ap \in V6Pairs}
 
+\* the transmission that precedes the echo request of a pair6 vector
+PreFns == <<"ICMP6SendNeighbourSolicitation", "ICMP6SendNeighborAdvertisement", "ICMP6SendRouterAdvertisement",
+            "ICMP6SendRouterSolicitation", "ICMP6SendEchoRequest", "ICMP4SendEchoRequest">>
+Pair6Set == {[k |-> "pair6", n |-> id, car |-> 1, pos |-> pf, val |-> ap[1] * 16 + ap[2]] :
+               id \in {1, 4660, 65535}, pf \in 1..Len(PreFns), ap \in V6Pairs}
+
 Descriptors ==
+  (IF "pair6" \in Families THEN Pair6Set ELSE {}) \cup
   (IF "raw" \in Families THEN RawSet ELSE {}) \cup (IF "pat" \in Families THEN PatSet ELSE {}) \cup
   (IF "hdr" \in Families THEN HdrSet ELSE {}) \cup (IF "echo4" \in Families THEN Echo4Set ELSE {}) \cup
   (IF "echo6" \in Families THEN Echo6Set ELSE {})
@@ -111,7 +121,7 @@ Bytes(x) ==
     [] x.k = "pat" -> PatBytes(x)
     [] x.k = "hdr" -> HdrBytes(x)
     [] x.k = "echo4" -> EchoMsg(8, x.n, x.car)
-    [] x.k = "echo6" -> LET m == EchoMsg(128, x.n, x.car)
+    [] x.k \in {"echo6", "pair6"} -> LET m == EchoMsg(128, x.n, x.car)
                         IN  Pseudo6(V6[x.val \div 16], V6[x.val % 16], Len(m)) \o m
 
 \* ------------------------------------------------------------------ per-vector lemmas
@@ -127,7 +137,8 @@ Lemmas ==
       /\ VerifyZero(b, EvenOffsets(n))
 
 Export ==
-  LET b == Bytes(d) \o <<>> IN PrintT(ToJson([k |-> d.k, b |-> b, e |-> Stored(b)]))
+  LET b == Bytes(d) \o <<>>
+  IN  PrintT(ToJson([k |-> d.k, b |-> b, e |-> Stored(b), pre |-> IF d.k = "pair6" THEN PreFns[d.pos] ELSE ""]))
 
 ASSUME CarryFold(800)
 ASSUME TwoFolds
